@@ -96,7 +96,7 @@ func main() {
 		return
 	}
 	if *reference {
-		core.StartWatchdog(120*time.Second, func() string { return "reference process" })
+		lib.ReferenceWatchdog(120 * time.Second)
 		lib.ServeReference()
 		return
 	}
